@@ -130,10 +130,11 @@ def gen_pristine(ctx, rng):
                     q = dict(q)
                     now = rng.choice(NOW_POOL if ctx.thorough else NOW_POOL[:2])
                     if mode == "live":
-                        q["depth"] = rng.choice(["30", "40", "60"])
+                        q["depth"] = rng.choice(["30", "30", "40", "60"])
                         if rng.random() < .3:
                             q["start"] = rng.choice(["epoch", "today", "year"])
-                        dur = rng.choice([12, 20, 32, 44] if ctx.thorough else [12, 20, 32])
+                        # about half of the live sessions need at least one manifest refresh
+                        dur = rng.choice([12, 20, int(q["depth"]) + 8, int(q["depth"]) + 16])
                     else:
                         dur = rng.choice([8, 12, 16, 24])
                         dur = min(dur, STREAMS[stream]["vod_max"])
@@ -362,14 +363,14 @@ class Batch:
 
     def add(self, ch, line, expect, info, canon=None):
         self.lines.append(line)
-        self.checks.append((ch, expect, info, canon, 1))
+        self.checks.append((ch, expect, info, canon, 1, False))
 
     def add_group(self, ch, lines, expect, info, combine):
         """several driver lines answer one question: `combine(list of answers)` is compared"""
         if not lines:
             return
         self.lines += lines
-        self.checks.append((ch, expect, info, combine, len(lines)))
+        self.checks.append((ch, expect, info, combine, len(lines), True))
 
     def run(self):
         if not self.lines:
@@ -382,14 +383,14 @@ class Batch:
                 ch.errors.append(f"driver: {e}")
             return
         pos = 0
-        for ch, expect, info, canon, n in self.checks:
+        for ch, expect, info, canon, n, grouped in self.checks:
             lines, got = self.lines[pos:pos + n], out[pos:pos + n]
             pos += n
             ch.evaluations += 1
-            if n == 1:
-                g = canon(got[0]) if canon else got[0]
-            else:
+            if grouped:
                 g = canon(got)
+            else:
+                g = canon(got[0]) if canon else got[0]
             if g != expect:
                 ch.disagreements.append({**info, "line": " || ".join(lines)[:1500],
                                          "model": g if isinstance(g, str) else repr(g),
@@ -721,7 +722,7 @@ def channels(ctx):
     t0 = time.time()
     done = run_sessions(app, pristine, chs, batch, limit_s=budget * .35)
     corrupted = []
-    per_base = 4 if not ctx.thorough else 14
+    per_base = 8 if not ctx.thorough else 16
     for case, res in done:
         if res.errors or res.crashed or not res.finished:
             continue
@@ -731,7 +732,7 @@ def channels(ctx):
     kinds_first, rest, seen = [], [], {}
     for c in corrupted:
         k = (c.corruption["kind"], c.mode)
-        if seen.get(k, 0) < (3 if not ctx.thorough else 10 ** 6):
+        if seen.get(k, 0) < (4 if not ctx.thorough else 10 ** 6):
             seen[k] = seen.get(k, 0) + 1
             kinds_first.append(c)
         else:
